@@ -258,6 +258,13 @@ class Interp:
             self.ctx.record(Obligation(name, self.cur_func, kind, 'discharged', 'trivial', 0.0, list(self.decisions[:self.dpos]), detail))
             return True
         ok_all = True
+        fc = self.ctx.__dict__.setdefault('fail_counts', {})
+        if fc.get(name, 0) >= 3:
+            # the same obligation already failed on three paths: do not spend the budget again (still counted as failed)
+            self.ctx.record(Obligation(name, self.cur_func, kind, 'failed', 'skipped', 0.0, list(self.decisions[:self.dpos]),
+                                       'not re-attempted: this obligation already failed on 3 other paths'))
+            self.st.pc.append(goal)
+            return False
         for gi in prover.split_conj(goal):
             if z3.is_true(z3.simplify(gi)):
                 continue
@@ -278,6 +285,7 @@ class Interp:
                     except Exception as e:      # concretisation must never turn into a verdict
                         ob.detail += ' (concretisation failed: %r)' % (e,)
                 ob.model = None
+                fc[name] = fc.get(name, 0) + 1
                 self.ctx.record(ob)
             # continue under the assumption, as verifiers do, to avoid cascades
         self.st.pc.append(goal)
